@@ -357,3 +357,9 @@ _app("C05", "text", " The sub-model sender mechanism itself is inside the model 
      "arbitrary node functions; the three open flag-parity findings are reproduced by computation (C05_flag_parity_desync_refuted, ..._failed_step_refuted, C05_submodel_straddling_first_step_refuted); "
      "correspondence family `subsender` compares states, flags and forward-entry counts on histories with stand-alone calls, aborted steps and forced feedback.")
 _app("C05", "note", " SubSender.v: one output node, no nested sub-model senders; the straddling / partly-outside theorems are per step on 3-node topologies.")
+_app("C14", "text", " set_seed, rand_generator and noise (utils/random.py), get_seed / set_seed (datasets/_seed.py) and the seed table of Reservoir.__init__ / initialize / initialize_feedback are ALSO "
+     "translated / extracted from the current source text on every run (tools/vlib/py2coq_seed.py -> coq/gen/Gen_seed.v over base/SeedPrelude.v) and proved equal to the provenance model for every "
+     "state and every seed form (C14_generated_*, closed under the global context).")
+_app("C14", "note", "; tie (T): py2coq_seed.py and base/SeedPrelude.v (module globals and Generator objects as an explicit world; default_rng(int) = a fresh stream rooted in the int); the RandomState "
+     "branch is pinned textually, the default-seed line of _chaos.py and the draws of mat_gen stay on tie (H)")
+_app("C14", "technique", " + seed plumbing translated on every run and proved equal to the model (translator tie)")
